@@ -118,6 +118,8 @@ type CallSpec struct {
 	P    interface{}
 	// DeadlineFails: the transport refuses SetWriteDeadline during this call (only felt when Conn.WriteTimeout > 0)
 	DeadlineFails bool
+	// WriteFails: the transport's Write fails during this call, no octet reaches the peer
+	WriteFails bool
 }
 
 type Call struct {
@@ -127,6 +129,8 @@ type Call struct {
 	Seq           int32
 	P             interface{}
 	DeadlineFails bool
+	WriteFails    bool
+	cancelled     bool   // CancelCtx was forced on it
 	term          string // Gallina term of what Send obtains before it calls the transport Write
 	ctx           context.Context
 	stop          context.CancelFunc
@@ -438,14 +442,39 @@ func (w *World) obsTerm() string {
 		w.watchCode(), coqBool(w.doneClosed()), w.kaCode())
 }
 
+// groupTerm: a forced group as a Gallina list of events; an entry "@@t" stands for the list-valued term t.
+func groupTerm(g []string) string {
+	var parts []string
+	var plain []string
+	flush := func() {
+		if len(plain) > 0 {
+			parts = append(parts, coqList(plain))
+			plain = nil
+		}
+	}
+	for _, e := range g {
+		if strings.HasPrefix(e, "@@") {
+			flush()
+			parts = append(parts, e[2:])
+		} else {
+			plain = append(plain, e)
+		}
+	}
+	flush()
+	if len(parts) == 1 {
+		return parts[0]
+	}
+	return "(" + strings.Join(parts, " ++ ") + ")"
+}
+
 // CaseExpr is the closed boolean term: the model, driven through the same
 // forced events, shows the same snapshots and the same final observation.
 func (w *World) CaseExpr(variant string) string {
 	gs := make([]string, len(w.groups))
 	for i, g := range w.groups {
-		gs[i] = coqList(g)
+		gs[i] = groupTerm(g)
 	}
-	return fmt.Sprintf("sched_matches %s %s %s %s %s", variant, coqBool(w.autoApp), coqList(gs), coqList(w.snaps), w.obsTerm())
+	return fmt.Sprintf("sched_admits %s %s %s %s %s", variant, coqBool(w.autoApp), coqList(gs), coqList(w.snaps), w.obsTerm())
 }
 
 // EnvExpr: the trace the model takes for this schedule satisfies the hypotheses of C05
@@ -453,9 +482,9 @@ func (w *World) CaseExpr(variant string) string {
 func (w *World) EnvExpr(variant string) string {
 	gs := make([]string, len(w.groups))
 	for i, g := range w.groups {
-		gs[i] = coqList(g)
+		gs[i] = groupTerm(g)
 	}
-	return fmt.Sprintf("sched_env_ok %s %s %s", variant, coqBool(w.autoApp), coqList(gs))
+	return fmt.Sprintf("sched_env_admits %s %s %s %s %s", variant, coqBool(w.autoApp), coqList(gs), coqList(w.snaps), w.obsTerm())
 }
 
 // Script is the human-readable replayable form of the schedule.
@@ -515,7 +544,7 @@ func (w *World) Go(g int, specs ...CallSpec) []*Call {
 	var cs []*Call
 	w.mu.Lock()
 	for _, sp := range specs {
-		c := &Call{ID: len(w.calls), G: g, Kind: sp.Kind, Seq: sp.Seq, P: sp.P, DeadlineFails: sp.DeadlineFails}
+		c := &Call{ID: len(w.calls), G: g, Kind: sp.Kind, Seq: sp.Seq, P: sp.P, DeadlineFails: sp.DeadlineFails, WriteFails: sp.WriteFails}
 		c.ctx, c.stop = context.WithCancel(context.Background())
 		switch sp.Kind {
 		case "close":
@@ -523,7 +552,7 @@ func (w *World) Go(g int, specs ...CallSpec) []*Call {
 		default:
 			c.term = frameTerm(sp.P, sp.Seq)
 		}
-		if sp.DeadlineFails {
+		if sp.DeadlineFails || sp.WriteFails {
 			c.term = "(send_prep false " + c.term + ")"
 		}
 		w.calls = append(w.calls, c)
@@ -541,6 +570,7 @@ func (w *World) Go(g int, specs ...CallSpec) []*Call {
 			}
 			w.mu.Unlock()
 			w.T.FailWriteDeadline(id, c.DeadlineFails)
+			w.T.FailWriteFor(id, c.WriteFails)
 			w.runCall(c)
 		}
 	}, func(string) {})
@@ -592,6 +622,16 @@ func (w *World) Held(c *Call) bool {
 	return false
 }
 
+// Written: the frame of call c has reached the transport (its Write may still be open).
+func (w *World) Written(c *Call) bool {
+	for _, wr := range w.T.Writes() {
+		if wr.Seq == c.Seq && len(wr.Data) >= 16 {
+			return true
+		}
+	}
+	return false
+}
+
 func natList(xs []int) string {
 	s := make([]string, len(xs))
 	for i, x := range xs {
@@ -631,6 +671,33 @@ func (w *World) PeerSplit(f []byte, k int) {
 	w.sync()
 }
 
+// PeerStream makes the concatenation of the frames readable at once, cut into pieces of the given sizes
+// regardless of the frame boundaries (one TCP segment may carry the end of a frame and the start of the next).
+// The model reads the items off the same octets with its own stream reader.
+func (w *World) PeerStream(frames [][]byte, cuts []int) {
+	var all []byte
+	for _, f := range frames {
+		all = append(all, f...)
+	}
+	w.force(fmt.Sprintf("@@(peer_stream %s %s)", coqHex(all), natList(cuts)))
+	w.T.Inject(all, cuts)
+	w.sync()
+}
+
+// PeerTrunc makes the first k octets of a frame readable and then lets the transport report err:
+// the read fails inside the frame.  once: the error is reported by one Read only (a timeout).
+func (w *World) PeerTrunc(f []byte, k int, err error, once bool) {
+	w.force(fmt.Sprintf("@@(peer_stream %s [])", coqHex(f[:k])))
+	w.T.Inject(f[:k], nil)
+	if once {
+		w.T.EndOnce(err)
+	} else {
+		w.force("PeerEnd")
+		w.T.End(err)
+	}
+	w.sync()
+}
+
 func (w *World) PeerPDU(p interface{}) { w.Peer([][]byte{frameOf(p)}, nil) }
 
 // PeerEnd: after the octets injected so far the transport reports err.
@@ -640,8 +707,17 @@ func (w *World) PeerEnd(err error) {
 	w.sync()
 }
 
+// PeerEndOnce: the transport reports err to one Read call only (a timeout); for the model it is the same event:
+// Watch ends on the first report.
+func (w *World) PeerEndOnce(err error) {
+	w.force("PeerEnd")
+	w.T.EndOnce(err)
+	w.sync()
+}
+
 func (w *World) CancelCtx(c *Call) {
 	w.force(fmt.Sprintf("CancelCtx %d", c.ID))
+	c.cancelled = true
 	c.stop()
 	w.sync()
 }
